@@ -8,6 +8,7 @@ mod cprops;
 mod evidence;
 mod expand;
 mod findings;
+mod fuzz;
 mod rt;
 
 use std::path::PathBuf;
